@@ -1,6 +1,6 @@
 (* C02 — proofs that the operand map is inverted by the decoder side (unbind1 / decode_row) for the invertible syntaxes. *)
 From Coq Require Import ZArith List Bool Lia.
-From Verif Require Import A64.A64Tmpl A64.A64TmplProofs A64.A64Sem A64.A64SemProofs.
+From Verif Require Import A64.A64Tmpl A64.A64TmplProofs A64.A64Sem A64.A64SemProofs Codec.ImmModel Codec.LogImmSound.
 Import ListNotations.
 Local Open Scope Z_scope.
 
@@ -50,6 +50,26 @@ Proof.
   destruct (sop =? 12) eqn:E3; [b2p; subst; reflexivity|]. destruct (sop =? 13) eqn:E4; [b2p; subst; reflexivity|]. lia.
 Qed.
 
+Lemma nodup2 : forall a b, nodupb [a; b] = true -> (a =? b) = false.
+Proof. intros a b H. cbn in H. rewrite orb_false_r, andb_true_r in H. apply negb_true_iff in H. exact H. Qed.
+
+Lemma nodup3 : forall a b c, nodupb [a; b; c] = true -> (a =? b) = false /\ (a =? c) = false /\ (b =? c) = false.
+Proof.
+  intros a b c H. cbn in H. rewrite !orb_false_r, !andb_true_r in H. apply andb_prop in H. destruct H as [H1 H2].
+  apply negb_true_iff in H1, H2. apply orb_false_iff in H1. tauto.
+Qed.
+
+Lemma neg_mod_back : forall size a, 0 < size -> 0 <= a < size -> (size - (size - a) mod size) mod size = a.
+Proof.
+  intros size a Hs Ha. destruct (Z.eq_dec a 0) as [->|Hn].
+  - rewrite Z.sub_0_r, Z.mod_same by lia. rewrite Z.sub_0_r, Z.mod_same by lia. reflexivity.
+  - rewrite (Z.mod_small (size - a)) by lia. replace (size - (size - a)) with a by lia. apply Z.mod_small. lia.
+Qed.
+
+Lemma logimm_fields_back : forall n r s, 0 <= n < 2 -> 0 <= r < 64 -> 0 <= s < 64 ->
+  let F := n * 4096 + r * 64 + s in F / 4096 = n /\ F mod 64 = s /\ (F / 64) mod 64 = r.
+Proof. intros n r s Hn Hr Hs F. subst F. repeat split; Z.div_mod_to_equations; lia. Qed.
+
 Theorem unbind1_bind1 : forall s ops e rest,
   syn_wf s = true -> syn_hi_ok s = true -> syn_inv s = true -> nodupb (map fst (syn_fields s)) = true ->
   bind1 s ops = Some (e, rest) ->
@@ -77,6 +97,43 @@ Proof.
     + inversion H; subst. cbn [lookup]. rewrite !Z.eqb_refl, Hne. reflexivity.
     + destruct ((0 <=? pred) && Z.testbit kinds pred && (0 <=? v) && (v <? maxn)) eqn:E; inversion H; subst.
       cbn [lookup]. rewrite !Z.eqb_refl, Hne. reflexivity.
+  - (* SExtReg *) destruct (nodup3 _ _ _ Hnd) as (N1 & N2 & N3).
+    destruct ops as [|[] r]; try discriminate.
+    assert (X : forall p v e0, ext_bind x frm fopt fn x0 id p v = Some e0 ->
+                [OGp x0 id; OImm (if p =? 0 then (if x then 9 else 8) else p) v] =
+                [OGp ((lookup e0 fopt =? 3) || (lookup e0 fopt =? 7)) (if lookup e0 frm =? 31 then 63 else lookup e0 frm); OImm (lookup e0 fopt + 6) (lookup e0 fn)]).
+    { intros p v e0 Hb. unfold ext_bind in Hb.
+      match type of Hb with (if ?c then _ else _) = _ => destruct c eqn:E; inversion Hb; subst end.
+      cbn [lookup]. rewrite !Z.eqb_refl, N1, N2, N3.
+      repeat (apply andb_prop in E; destruct E as [E ?]).
+      match goal with Y : gp_ok _ _ = true |- _ => rewrite (gp_id_back id 63 (or_intror eq_refl) Y) end.
+      match goal with Y : Bool.eqb _ _ = true |- _ => apply Bool.eqb_prop in Y; rewrite <- Y end.
+      destruct (p =? 0) eqn:P0; [destruct x; reflexivity|]. replace (p - 6 + 6) with p by lia. reflexivity. }
+    destruct r as [|[] [|? ?]]; try discriminate; cbn [canon1].
+    + destruct (ext_bind x frm fopt fn x0 id 0 0) as [e0|] eqn:Eb; try discriminate. injection H as <- <-. rewrite <- (X 0 0 e0 Eb). reflexivity.
+    + destruct (ext_bind x frm fopt fn x0 id pred v) as [e0|] eqn:Eb; try discriminate. injection H as <- <-. rewrite <- (X pred v e0 Eb). reflexivity.
+  - (* SAddImm *) pose proof (nodup2 _ _ Hnd) as N1.
+    destruct ops as [|[] r]; try discriminate.
+    assert (X : forall sh s e0, 12 * sh = s -> (sh = 0 \/ 0 <= v <= 4095) -> addimm_bind fimm fn v sh = Some e0 ->
+                (if (0 <=? v) && (v <=? 4095) then [OImm 0 v; OImm 0 s] else [OImm 0 (v / 4096); OImm 0 12]) =
+                [OImm 0 (lookup e0 fimm); OImm 0 (12 * lookup e0 fn)]).
+    { intros sh s e0 Hs Hor Hb. unfold addimm_bind in Hb.
+      destruct ((0 <=? v) && (v <=? 4095)) eqn:E1.
+      - inversion Hb; subst. cbn [lookup]. rewrite !Z.eqb_refl, N1. reflexivity.
+      - match type of Hb with (if ?c then _ else _) = _ => destruct c eqn:E2; inversion Hb; subst end.
+        cbn [lookup]. rewrite !Z.eqb_refl, N1. reflexivity. }
+    destruct r as [|[] r']; cbn [canon1].
+    all: try (destruct (addimm_bind fimm fn v 0) as [e0|] eqn:Eb; [|discriminate]; injection H as <- <-;
+              rewrite <- (X 0 0 e0 eq_refl (or_introl eq_refl) Eb); destruct ((0 <=? v) && (v <=? 4095)); reflexivity).
+    destruct ((pred0 =? 0) && ((v0 =? 0) || (v0 =? 12))) eqn:Ep; try discriminate.
+    destruct (addimm_bind fimm fn v (if v0 =? 0 then 0 else 1)) as [e0|] eqn:Eb; [|discriminate]. injection H as <- <-.
+    apply andb_prop in Ep. destruct Ep as [_ Ep].
+    assert (Hs12 : 12 * (if v0 =? 0 then 0 else 1) = v0).
+    { apply orb_prop in Ep. destruct Ep as [Ep|Ep]; b2p; subst; reflexivity. }
+    assert (Hor : (if v0 =? 0 then 0 else 1) = 0 \/ 0 <= v <= 4095).
+    { unfold addimm_bind in Eb. destruct ((0 <=? v) && (v <=? 4095)) eqn:E1; [right; b2p; lia|].
+      match type of Eb with (if ?c then _ else _) = _ => destruct c eqn:E2; try discriminate end. b2p. left. assumption. }
+    rewrite <- (X _ v0 e0 Hs12 Hor Eb). destruct ((0 <=? v) && (v <=? 4095)); reflexivity.
   - (* SRel *) destruct ops as [|[] r]; try discriminate.
     destruct ((disp mod scale =? 0) && fits_s (disp / scale) w) eqn:E; inversion H; subst. apply andb_prop in E. destruct E as [E1 E2]. b2p.
     cbn [lookup]. rewrite Z.eqb_refl. rewrite sext_mod; [|lia|exact E2].
@@ -119,6 +176,17 @@ Proof.
     destruct ((disp mod 4 =? 0) && fits_s (disp / 4) w) eqn:E; inversion H; subst. apply andb_prop in E. destruct E as [E1 E2]. b2p.
     cbn [lookup]. rewrite Z.eqb_refl. rewrite sext_mod; [|lia|exact E2].
     assert (X : disp / 4 * 4 = disp) by (pose proof (Z.div_mod disp 4 ltac:(lia)); lia). rewrite X. reflexivity.
+  - (* SLogImm *) destruct ops as [|[] r]; try discriminate.
+    match type of H with (if ?c then _ else _) = _ => destruct c eqn:Er; try discriminate end.
+    set (width := if x then 64 else 32) in *.
+    assert (Hw : width = 32 \/ width = 64) by (subst width; destruct x; auto).
+    assert (Hv : 0 <= v mod 2 ^ width < 2 ^ width) by (apply Z.mod_pos_bound; destruct Hw as [-> | ->]; reflexivity).
+    destruct (encode_logical_imm (v mod 2 ^ width) width) as [li|] eqn:El; try discriminate.
+    match type of H with (if ?c then _ else _) = _ => destruct c eqn:Ef; inversion H; subst end.
+    destruct (logical_imm_sound_fields width _ li Hw Hv El) as (Hd & Hn & Hs & Hr).
+    cbn [lookup]. rewrite Z.eqb_refl.
+    destruct (logimm_fields_back (li_n li) (li_r li) (li_s li) Hn Hr Hs) as (F1 & F2 & F3).
+    rewrite F1, F2, F3, Hd. reflexivity.
   - (* SGpDup *) apply andb_prop in Hnd. destruct Hnd as [Hne _]. cbn in Hne. rewrite orb_false_r in Hne. apply negb_true_iff in Hne.
     destruct ops as [|[] r]; try discriminate.
     destruct (Bool.eqb x x0 && gp_ok id hi) eqn:E; inversion H; subst. apply andb_prop in E. destruct E as [Ex Eg].
@@ -126,6 +194,29 @@ Proof.
     rewrite gp_id_back; [reflexivity| |exact Eg]. apply orb_prop in Hhi. destruct Hhi as [Hh|Hh]; b2p; [left|right]; lia.
   - (* SImmLt *) destruct ops as [|[] r]; try discriminate.
     destruct ((0 <=? v) && (v <? lim)) eqn:E; inversion H; subst. cbn [lookup]. rewrite Z.eqb_refl. reflexivity.
+  - (* SBitfield *) pose proof (nodup2 _ _ Hnd) as N1.
+    assert (Hs : 0 < size). { apply andb_prop in Hwf. destruct Hwf as [_ Hz]. apply orb_prop in Hz. destruct Hz as [Hz|Hz]; apply Z.eqb_eq in Hz; lia. }
+    destruct ops as [|[] r]; try discriminate.
+    destruct (kind =? 2) eqn:K2.
+    + destruct ((0 <=? v) && (v <? size)) eqn:E; inversion H; subst. cbn [lookup]. rewrite !Z.eqb_refl, N1.
+      replace (size - 1 - (size - 1 - v)) with v by lia. reflexivity.
+    + destruct r as [|[] r']; try discriminate.
+      destruct ((0 <=? v) && (v <? size) && (1 <=? v0) && (v0 <=? size - v)) eqn:E; try discriminate.
+      destruct (kind =? 0) eqn:K0; inversion H; subst; cbn [lookup]; rewrite !Z.eqb_refl, N1.
+      * replace (v + v0 - 1 - v + 1) with v0 by lia. reflexivity.
+      * repeat (apply andb_prop in E; destruct E as [E ?]). apply Z.leb_le in E. match goal with Y : (v <? size) = true |- _ => apply Z.ltb_lt in Y end.
+        rewrite neg_mod_back by lia. replace (v0 - 1 + 1) with v0 by lia. reflexivity.
+  - (* SMovW *) pose proof (nodup2 _ _ Hnd) as N1.
+    destruct ops as [|[] r]; try discriminate.
+    destruct ((0 <=? v) && (v <=? 65535)) eqn:E0; try discriminate.
+    destruct r as [|[] r'].
+    all: try (inversion H; subst; cbn [lookup]; rewrite !Z.eqb_refl, N1; reflexivity).
+    match type of H with (if ?c then _ else _) = _ => destruct c eqn:E; inversion H; subst end.
+    cbn [lookup]. rewrite !Z.eqb_refl, N1.
+    apply andb_prop in E. destruct E as [_ E].
+    assert (X : v0 / 16 * 16 = v0).
+    { repeat (apply orb_prop in E; destruct E as [E|E]); try (apply andb_prop in E; destruct E as [_ E]; apply orb_prop in E; destruct E as [E|E]); b2p; subst; reflexivity. }
+    rewrite X. reflexivity.
   - (* SSysReg *) destruct ops as [|[] r]; try discriminate.
     destruct ((32768 <=? v) && (v <=? 65535)) eqn:E; inversion H; subst. cbn [lookup]. rewrite Z.eqb_refl.
     replace (v - 32768 + 32768) with v by lia. reflexivity.
@@ -139,6 +230,10 @@ Proof.
     match type of H with (if ?c then _ else _) = _ => destruct c eqn:E; inversion H; subst end.
     cbn [lookup]. rewrite !Z.eqb_refl, Hne.
     repeat (apply andb_prop in E; destruct E as [E ?]). b2p. subst. reflexivity.
+  - (* SVecList *) destruct ops as [|[] r]; try discriminate.
+    match type of H with (if ?c then _ else _) = _ => destruct c eqn:E; try discriminate end.
+    match type of H with match ?m with Some _ => _ | None => _ end = _ => destruct m eqn:Ev; inversion H; subst end.
+    cbn [lookup]. rewrite Z.eqb_refl. reflexivity.
   - (* SMemPostReg *) apply andb_prop in Hnd. destruct Hnd as [Hne _]. cbn in Hne. rewrite orb_false_r in Hne. apply negb_true_iff in Hne.
     destruct ops as [|[] r]; try discriminate. destruct idx as [[xi i]|]; try discriminate.
     match type of H with (if ?c then _ else _) = _ => destruct c eqn:E; inversion H; subst end.
@@ -148,6 +243,30 @@ Proof.
     match type of H with (if ?c then _ else _) = _ => destruct c eqn:E; inversion H; subst end.
     cbn [lookup]. rewrite !Z.eqb_refl.
     repeat (apply andb_prop in E; destruct E as [E ?]). b2p. subst. reflexivity.
+  - (* SVShift *) pose proof (nodup2 _ _ Hnd) as N1.
+    destruct ops as [|[] r]; try discriminate.
+    destruct lft.
+    + match type of H with (if ?c then _ else _) = _ => destruct c eqn:E; [|discriminate] end. injection H as <- <-.
+      cbn [lookup]. rewrite !Z.eqb_refl, N1.
+      assert (X : (esize + v) / 8 * 8 + (esize + v) mod 8 = esize + v) by (pose proof (Z.div_mod (esize + v) 8 ltac:(lia)); lia).
+      rewrite X. replace (esize + v - esize) with v by lia. reflexivity.
+    + match type of H with (if ?c then _ else _) = _ => destruct c eqn:E; [|discriminate] end. injection H as <- <-.
+      cbn [lookup]. rewrite !Z.eqb_refl, N1.
+      change (match esize with 0 => 0 | Z.pos y' => Z.pos y'~0 | Z.neg y' => Z.neg y'~0 end) with (2 * esize).
+      assert (X : (2 * esize - v) / 8 * 8 + (2 * esize - v) mod 8 = 2 * esize - v) by (pose proof (Z.div_mod (2 * esize - v) 8 ltac:(lia)); lia).
+      rewrite X. replace (2 * esize - (2 * esize - v)) with v by lia. reflexivity.
+  - (* SSysOp *) destruct (nodup3 _ _ _ Hnd) as (N1 & N2 & N3).
+    destruct ops as [|[] r]; try discriminate.
+    match type of H with (if ?c then _ else _) = _ => destruct c eqn:E; inversion H; subst end.
+    cbn [lookup]. rewrite !Z.eqb_refl, N1, N2, N3.
+    repeat (apply andb_prop in E; destruct E as [E ?]). b2p.
+    assert (X : v / 2048 * 2048 + crn * 128 + (v / 8) mod 16 * 8 + v mod 8 = v) by (subst crn; Z.div_mod_to_equations; lia).
+    rewrite X. reflexivity.
+  - (* SGpPair *) destruct ops as [|[] [|[] r]]; try discriminate.
+    match type of H with (if ?c then _ else _) = _ => destruct c eqn:E; inversion H; subst end.
+    repeat (apply andb_prop in E; destruct E as [E ?]).
+    repeat match goal with Y : Bool.eqb _ _ = true |- _ => apply Bool.eqb_prop in Y end. b2p. subst.
+    cbn [lookup]. rewrite Z.eqb_refl. reflexivity.
 Qed.
 
 Lemma nodupb_app : forall l1 l2, nodupb (l1 ++ l2) = true -> nodupb l1 = true /\ nodupb l2 = true.
@@ -228,4 +347,47 @@ Proof.
     destruct (spec_rows db b ops) as [[id0 w0]|] eqn:E2; inversion H; subst.
     destruct (spec_rows_in _ _ _ _ _ E2) as [r [Hi [Hid [Hmn Hs]]]]. exists r, w0. repeat split; auto.
     right. exists (a, b). apply find_some in F. destruct F as [Fi Fe]. cbn in Fe. apply Z.eqb_eq in Fe. cbn. auto.
+Qed.
+
+(* ---- the MOV Rd, #imm pseudo instruction: whatever spec_mov_imm emits loads the value ---- *)
+From Verif Require Import Codec.MovSeqProofs.
+
+Definition orr_imm_word (x : bool) (n r s rd5 : Z) : Z :=
+  (if x then 2 ^ 31 else 0) + 838861792 + n * 2 ^ 22 + r * 2 ^ 16 + s * 2 ^ 10 + rd5.
+
+(* Either the words are a MOVZ/MOVN(+MOVK) sequence on register (rd mod 32) that, decoded architecturally and executed from any
+   initial register value, leaves the immediate in the register (C17 mov_sequence_words_correct), and rd is not SP; or it is the single
+   word ORR Rd|SP, ZR, #bitmask whose N:immr:imms fields denote the immediate (C17 logical_imm_sound), and rd is not ZR. *)
+Theorem mov_imm_correct : forall x rd v ws, spec_mov_imm x rd v = Some ws ->
+  let width := if x then 64 else 32 in
+  let imm := v mod 2 ^ width in
+  (gp_ok rd 63 = true /\ forall init, 0 <= init < 2 ^ 64 ->
+     exists ops, map mw_decode ws = map (fun m => Some (rd mod 32, m)) ops /\ mw_run init ops = Some imm /\ (1 <= length ws <= 4)%nat) \/
+  (gp_ok rd 31 = true /\ rd <> 63 /\ exists n r s, ws = [orr_imm_word x n r s (rd mod 32)] /\
+     0 <= n < 2 /\ 0 <= r < 64 /\ 0 <= s < 64 /\ decode_bit_masks width n s r = Some imm).
+Proof.
+  intros x rd v ws H width imm. unfold spec_mov_imm in H.
+  match type of H with (if negb ?c then _ else _) = _ => destruct c eqn:Er; cbn [negb] in H; [|discriminate] end.
+  fold width in H. fold imm in H.
+  assert (Hw : width = 32 \/ width = 64) by (subst width; destruct x; auto).
+  assert (Hi : 0 <= imm < 2 ^ width) by (subst imm; apply Z.mod_pos_bound; destruct Hw as [-> | ->]; reflexivity).
+  assert (Hi64 : 0 <= imm < 2 ^ 64).
+  { destruct Hw as [E|E]; rewrite E in Hi; [change (2 ^ 32) with 4294967296 in Hi; change (2 ^ 64) with 18446744073709551616; lia | exact Hi]. }
+  assert (Hrd : 0 <= rd mod 32 < 32) by (apply Z.mod_pos_bound; lia).
+  assert (Hx : (if x then 1 else 0) = 0 \/ (if x then 1 else 0) = 1) by (destruct x; auto).
+  assert (SEQ : forall init, 0 <= init < 2 ^ 64 ->
+            exists ops, map mw_decode (encode_mov_sequence true imm (rd mod 32) (if x then 1 else 0)) = map (fun m => Some (rd mod 32, m)) ops /\
+                        mw_run init ops = Some imm /\ (1 <= length (encode_mov_sequence true imm (rd mod 32) (if x then 1 else 0)) <= 4)%nat).
+  { intros init Hinit. exact (mov_sequence_words_correct true imm (rd mod 32) (if x then 1 else 0) init Hi64 Hrd Hx Hinit). }
+  match type of H with (if ?c then _ else _) = _ => destruct c eqn:E1 end.
+  - inversion H; subst. apply andb_prop in E1. destruct E1 as [_ Eg]. left. split; [exact Eg | exact SEQ].
+  - destruct (rd =? 63) eqn:E63.
+    + destruct (gp_ok rd 63) eqn:Eg; inversion H; subst. left. split; [reflexivity | exact SEQ].
+    + destruct (encode_logical_imm imm width) as [li|] eqn:El.
+      * match type of H with (if ?c then _ else _) = _ => destruct c eqn:Ef; inversion H; subst end.
+        apply andb_prop in Ef. destruct Ef as [Ef _]. apply andb_prop in Ef. destruct Ef as [Ef _]. apply andb_prop in Ef. destruct Ef as [Eg _].
+        right. split; [exact Eg|]. split; [apply Z.eqb_neq; exact E63|].
+        destruct (logical_imm_sound_fields width imm li Hw Hi El) as (Hd & Hn & Hs & Hr).
+        exists (li_n li), (li_r li), (li_s li). unfold orr_imm_word. repeat split; try tauto; try lia.
+      * destruct (gp_ok rd 63) eqn:Eg; inversion H; subst. left. split; [reflexivity | exact SEQ].
 Qed.
